@@ -39,7 +39,8 @@ Oracle clauses (one per sentence of the statement / DESIGN §C16)
   seed-response-preserves-grant / seed-response-wraps-asset / seed-response-adds-proxy-cap / seed-response-wellformed
 Domain restrictions (run.assumptions): the simulator only grants names that were in the upstream request, and never a
 name the proxy registered as temporary / wrapper / proxy-only (the statement does not say who wins such a collision);
-Seed URLs are unique per region; granted URLs start with "http".
+Seed URLs are unique per region; granted URLs start with "http"; a live temporary URL is not registered a second time
+in the same region (after consuming one of two identical grants "most recent" is undefined).
 
 Deviation from DESIGN §C16, and why: with 4 regions the full alphabet has ~80 events per state, which makes depth 4
 unaffordable at ~1 ms per replayed transition.  The space is therefore covered by three searches with stated alphabets:
@@ -182,7 +183,8 @@ class Harness:
             if p["reseed"] and w.seed_gen[reg] == 0:
                 evs.append(("reseed", reg))
             for t in p["temps"]:
-                evs.append(("temp", reg, t))
+                if (TEMP_NAME, "TEMPORARY", t) not in w.grants[reg]:   # a live one-shot URL is not handed out again
+                    evs.append(("temp", reg, t))
             if p["wrap"] and self.latest(w, reg, WRAPPED) is not None:
                 evs.append(("wrap", reg))
             for n in p["proxies"]:
@@ -514,6 +516,8 @@ def allowed(w: World, ev) -> bool:
         return Harness.latest(w, ev[1], WRAPPED) is not None
     if kind == "reseed":
         return w.seed_gen[ev[1]] == 0
+    if kind == "temp":
+        return (TEMP_NAME, "TEMPORARY", ev[2]) not in w.grants[ev[1]]
     if kind == "seedreq":
         return w.pending is None and ev[2] <= w.seed_gen[ev[1]]
     if kind == "seedresp":
@@ -621,7 +625,7 @@ def _seed_worker(case):
 def run(run: Run):
     global _SEED_URLS
     quick = run.tier == "quick"
-    depths = {"first": 4, "last": 3, "cross": 4} if quick else {"first": 5, "last": 5, "cross": 5}
+    depths = {"first": 4, "last": 3, "cross": 4} if quick else {"first": 5, "last": 4, "cross": 5}
     _SEED_URLS = (A, A1) if quick else POOL
     run.rule = ("explicit-state BFS on the real SessionManager/Session/ProxiedRegion/MITMProxyEventManager (2 sessions x 2 regions) "
                 "over {grant(1-2 entries), reseed, temp, wrap, proxy, consuming lookup, seedreq, seedresp} in three stated alphabets "
@@ -634,6 +638,8 @@ def run(run: Run):
         "simulator grants only names present in the upstream seed request and never a name the proxy registered itself "
         "(temporary / wrapper / proxy-only); who wins such a collision is not stated",
         "Seed URLs are unique per region (wrapper host names derive from them); granted URLs are http(s) strings",
+        "a one-shot (temporary) URL is not registered again in the same region while it is still live (two identical live "
+        "temporaries are indistinguishable, so 'most recent' after consuming one of them is not defined)",
         "plain asset caps (GetMesh2, NORMAL) may resolve with region/session None, as documented in Session.resolve_cap",
         "a URL extending several live grants (same URL twice, textual prefix, several regions) may resolve to any of them",
         "trusted base: hippolyzer.lib.base.llsd for list/map-of-string bodies, mitmproxy flow (de)serialisation, "
